@@ -41,6 +41,8 @@ const SIG_ERROR_ARG_SCOPE: &str = "C24/error-argument-loses-variable-scope";
 const SIG_INDEX_OBJECT: &str = "C24/proxy/index-builtins-on-object-input";
 /// known finding: sqrt is a Newton iteration, 1 ulp off for many inputs (`2|sqrt`)
 const SIG_SQRT: &str = "C24/proxy/values/sqrt-not-correctly-rounded";
+/// known finding: bare `flatten` flattens one level only (jq: all levels)
+const SIG_FLATTEN: &str = "C24/proxy/values/flatten-only-one-level";
 const SIG_FORMAT_LITERAL: &str = "C24/parse-reject/format-string-literal";
 const TWO53: f64 = 9007199254740992.0;
 
@@ -1148,6 +1150,9 @@ fn compare_docs(c: &ProxyCase, env: &ProxyEnv, a: &[DocRes], b: &[DocRes], docs:
             }
             if c.program.contains("sqrt") && ra.ys.len() == rb.ys.len() && ra.ys.iter().zip(rb.ys.iter()).all(|(x, y)| near_eq(x, y)) {
                 fail!(SIG_SQRT, {"case": case()});
+            }
+            if c.program.contains("flatten") && !c.program.contains("flatten(") && ra.ys.len() == rb.ys.len() && ra.ys.iter().zip(rb.ys.iter()).all(|(x, y)| to_compact(x).replace(['[', ']'], "") == to_compact(y).replace(['[', ']'], "")) {
+                fail!(SIG_FLATTEN, {"case": case()});
             }
             if c.program.starts_with("last(") && rb.ys.is_empty() && ra.ys.len() == 1 && matches!(ra.ys[0], J::Null) {
                 fail!(SIG_LAST_EMPTY, {"case": case()});
